@@ -325,7 +325,7 @@ def run(tier: str, seed: int) -> int:
               "and requests/returned values for identical calls across the four; icontract postcondition on the real _get_dependencies_of_type; distinct = feature-set")
     r.assumptions = ["graphql-core reference server", "enums used only inside fragment definitions are allowed but not required (lower/upper bound)"]
     r.floors = {"packages": 200, "input_sets_compared": 200, "enum_sets_compared": 200, "segments_compared": 500, "behaviour_comparisons": 150, "contract_evaluations": 20}
-    n = 700 if tier == "thorough" else 80
+    n = 700 if tier == "thorough" else 150
     cases = [cw.make_case(seed, i, tier=tier, size=("l" if i % 2 else "m"), dirty=[[], ["schema.extend"], [], ["frag.uses_variables"], []][i % 5]) for i in range(n)]
 
     cases.extend(cw.scale_cases(PROP, tier))
